@@ -4,8 +4,21 @@ import Wf.Drv.Adapter
 import Wf.Drv.Fields
 import Wf.Drv.FieldCodec
 import Wf.Drv.ProofObjects
+import Wf.Drv.AirDesc
+import Wf.Drv.Transcript
 import Wf.Drv.BatchUtils
+import Wf.Drv.Polynom
 import Wf.Drv.Assertions
+import Wf.Drv.Fft
+import Wf.Drv.AirDivisor
+import Wf.Drv.Boundary
+import Wf.Drv.Security
+import Wf.Drv.Merkle
+import Wf.Drv.Hashers
+import Wf.Drv.Rescue
+import Wf.Drv.RandomCoin
+import Wf.Drv.Fri
+import Wf.Drv.TraceTable
 
 open Wf.Drv
 
@@ -16,8 +29,22 @@ def dispatch (line : String) : String :=
   | "c10" :: rest => handleFields rest
   | "c11" :: rest => handleCodec rest
   | "obj" :: rest => handleObjects rest
+  | "c01" :: rest => handleIdeal rest
+  | "c03t" :: rest => handleTranscript rest
   | "c14" :: rest => handleBatchUtils rest
+  | "c13" :: rest => handlePolynom rest
   | "c21" :: rest => handleAssertions rest
+  | "c12" :: rest => handleFft rest
+  | "c22" :: rest => handleBoundary rest
+  | "c23" :: rest => handleAirDivisor rest
+  | "c25" :: rest => handleSecurity rest
+  | "c18" :: rest => handleMerkle rest
+  | "c15" :: rest => handleHashers rest
+  | "c16" :: rest => handleRescue rest
+  | "c20" :: rest => handleCoin rest
+  | "c08" :: rest => handleFri rest
+  | "c29" :: rest => handleValidate rest
+  | "c29t" :: rest => handleTable rest
   | _ => "bad-family"
 
 partial def loop (h : IO.FS.Stream) (out : IO.FS.Stream) : IO Unit := do
